@@ -75,9 +75,9 @@ def _cases_for(ds, rng, tag, api=False):
     elv = [rng.randint(0, 9) for _ in range(n)]
     drain = [int(rng.random() < 0.3) for _ in range(n)]
     yield {"k": 1407, "args": [ds, sq, drain, elv], "group": f"{tag}-hand"}
-    b = rng.choice([1.0, 0.5])
+    b = rng.choice([1.0, 0.5, 0, 0.0])        # b = 0: the same height threshold 1 everywhere
     area = [rng.choice([1, 4, 9, 16]) for _ in range(n)] if b == 0.5 else [rng.randint(1, 6) for _ in range(n)]
-    upa_min = rng.choice([3, 5, 9])
+    upa_min = rng.choice([3, 5, 9, 0])         # 0: every cell is a stream cell
     stream = [int(a >= upa_min) for a in area]
     hmax = [int(round(a ** b)) for a in area]
     yield {"k": 1408, "args": [ds, sq, stream, hmax, elv], "call": {"area": area, "upa_min": upa_min, "b": b}, "group": f"{tag}-floodplains"}
@@ -184,6 +184,12 @@ def impl(case):
         return ints(*call_impl(dem.height_above_nearest_drain, arr, sq, np.array(a[2], dtype=np.int8), np.array(a[3], dtype=np.float64)))
     if k == 1408:
         c = case["call"]
+        if (sum(c["area"]) + n) % 2:
+            # through the raster method, which has to hand b and upa_min on as given, 0 included (round-5 seed)
+            from implutil import make_raster
+            flw = make_raster(ds)
+            return ints(*call_impl(flw.floodplains, np.array(a[4], dtype=np.float64).reshape(flw.shape),
+                                   uparea=np.array(c["area"], dtype=np.float64).reshape(flw.shape), upa_min=c["upa_min"], b=c["b"]))
         return ints(*call_impl(dem.floodplains, arr, sq, np.array(a[4], dtype=np.float64), np.array(c["area"], dtype=np.float64), float(c["upa_min"]), c["b"]))
     if k == 1411:
         import pyflwdir
